@@ -137,8 +137,6 @@ impl Base64 {
     }
 
     pub fn decode_sequence(text: String) -> Result<Vec<u8>, String> {
-        let result : Vec<u8> = vec![];
-
         let number_of_equal_signs = text.matches(SYMBOL.equals).count();
 
         if number_of_equal_signs == 2 {
@@ -343,7 +341,7 @@ impl Base64 {
 
         }
 
-        Ok(result)
+        Err(format!("unable to decode, more than two padding characters in: {}", text))
     }
 
     pub fn encode_sequence(bytes: &[u8]) -> Result<String, String> {
